@@ -319,6 +319,8 @@ class LocatedError(Contract):
     params = ['original_error', 'nodes', 'path']
     modifies_fields = ('coerce_value',)
     instance_overrides = ('coerce_value',)
+    no_merge = True        # the three shapes of `nodes` stay separate paths (element facts are per list term)
+    merge_ifs = True       # the path / locations binding blocks rejoin after each `if`
 
     def args(self, en, names):
         self.A = super().args(en, names)
